@@ -156,7 +156,7 @@ def oracle_c08(ctx, cfg, prog, events, violate):
 
 
 def run_c08(ctx):
-    n = ctx.pick(2, 12)
+    n = ctx.pick(2, 16)
     cfgs = make_cfgs(ctx, n, "c08")
     results = run_cfgs(ctx, cfgs)
     try:
@@ -307,7 +307,7 @@ def oracle_c10(ctx, cfg, res, prog, sim, events, violate):
 
 
 def run_c10(ctx):
-    n = ctx.pick(2, 12)
+    n = ctx.pick(2, 16)
     cfgs = make_cfgs(ctx, n, "c10")
     results = run_cfgs(ctx, cfgs)
     try:
